@@ -3,8 +3,13 @@ package harness
 import (
 	"bytes"
 	"fmt"
+	"log/syslog"
 	"net"
+	"os"
+	"path/filepath"
+	"strings"
 	"sync"
+	"syscall"
 
 	tq "github.com/facebookincubator/tacquito"
 	reallog "github.com/facebookincubator/tacquito/cmds/server/log"
@@ -56,6 +61,69 @@ type refEnv struct {
 	sink   *recSink
 	// realOut is what the reference logger wrote (refOpts.realLog)
 	realOut *lockedBuf
+	// syslogd is the harness end of the syslog accounter's socket (refOpts.syslog)
+	syslogd *syslogd
+}
+
+// syslogd is a unixgram socket standing in for the system log service.
+type syslogd struct {
+	dir  string
+	conn *net.UnixConn
+	w    *syslog.Writer
+}
+
+func newSyslogd() (*syslogd, error) {
+	dir, err := os.MkdirTemp("", "verif-syslog-")
+	if err != nil {
+		return nil, err
+	}
+	path := filepath.Join(dir, "log")
+	conn, err := net.ListenUnixgram("unixgram", &net.UnixAddr{Name: path, Net: "unixgram"})
+	if err != nil {
+		os.RemoveAll(dir)
+		return nil, err
+	}
+	_ = conn.SetReadBuffer(8 << 20)
+	w, err := syslog.Dial("unixgram", path, syslog.LOG_INFO|syslog.LOG_AUTH, "tacquito")
+	if err != nil {
+		conn.Close()
+		os.RemoveAll(dir)
+		return nil, err
+	}
+	return &syslogd{dir: dir, conn: conn, w: w}, nil
+}
+
+// drain returns the messages (text after the syslog header) queued on the socket, without waiting: a
+// datagram is queued before the sender's Write returns, so whatever the accounter wrote before
+// replying is there once the reply has arrived.
+func (s *syslogd) drain() []string {
+	var out []string
+	buf := make([]byte, 1<<20)
+	rc, err := s.conn.SyscallConn()
+	if err != nil {
+		return nil
+	}
+	for {
+		n := -1
+		_ = rc.Read(func(fd uintptr) bool {
+			n, _, _ = syscall.Recvfrom(int(fd), buf, syscall.MSG_DONTWAIT)
+			return true
+		})
+		if n < 0 {
+			return out
+		}
+		msg := string(buf[:n])
+		if i := strings.Index(msg, "]: "); i >= 0 {
+			msg = msg[i+3:]
+		}
+		out = append(out, strings.TrimSuffix(msg, "\n"))
+	}
+}
+
+func (s *syslogd) close() {
+	s.w.Close()
+	s.conn.Close()
+	os.RemoveAll(s.dir)
 }
 
 // lockedBuf is an io.Writer for the reference logger.
@@ -77,6 +145,8 @@ type refOpts struct {
 	recover  bool // swallow handler panics (recorded) instead of dying
 	quiet    bool // use the lock-free no-op logger
 	proxy    bool // run the server with SetUseProxy(true)
+	// syslog: also register the syslog accounter, writing to a datagram socket the harness reads
+	syslog bool
 	// realLog > 0: every log call is also passed to the reference logger (cmds/server/log) at this level,
 	// writing to refEnv.realOut
 	realLog int
@@ -100,8 +170,19 @@ func startRefDoc(doc []byte, o refOpts) (*refEnv, error) {
 	if o.quiet {
 		lg = refsrv.NopLogger{}
 	}
-	st, err := refsrv.New(doc, refsrv.Options{Logger: lg, Sink: e.sink, Keychain: o.keychain, Format: o.format})
+	ro := refsrv.Options{Logger: lg, Sink: e.sink, Keychain: o.keychain, Format: o.format}
+	if o.syslog {
+		sd, err := newSyslogd()
+		if err != nil {
+			return nil, fmt.Errorf("HARNESS-BUG: syslog socket: %v", err)
+		}
+		e.syslogd, ro.Syslog = sd, sd.w
+	}
+	st, err := refsrv.New(doc, ro)
 	if err != nil {
+		if e.syslogd != nil {
+			e.syslogd.close()
+		}
 		return nil, err
 	}
 	e.stack = st
@@ -113,6 +194,9 @@ func startRefDoc(doc []byte, o refOpts) (*refEnv, error) {
 func (e *refEnv) stop() error {
 	err := e.srv.stop()
 	e.stack.Close()
+	if e.syslogd != nil {
+		e.syslogd.close()
+	}
 	return err
 }
 
